@@ -48,6 +48,11 @@ class Spacing(Sym):
                 return float(n)
         raise PathAbort()
 
+    def __rtruediv__(self, a):
+        if isinstance(a, Sym):
+            return Sym._truediv(a, self)
+        return Ratio(float(a), self)
+
     def __mul__(self, o):
         if isinstance(o, (int, float)) and not isinstance(o, bool) and o > 0:
             return Spacing(z3.simplify(self.t * lift(float(o))), self.lo * o, self.hi * o)
@@ -59,6 +64,39 @@ class Spacing(Sym):
         if o == 2:
             return SqSpacing(z3.simplify(self.t * self.t))
         return Sym.__pow__(self, o)
+
+
+class Ratio(Sym):
+    """a / (k s) for a concrete length a: floor / ceil / int enumerate the candidate integers by linear constraints, like
+    Spacing.__rfloordiv__ (robust to the count being written as int(a // s), floor(a / s) or ceil(a / s))"""
+    __slots__ = ('a', 'sp')
+
+    def __init__(self, a, sp):
+        Sym.__init__(self, _divide_plain(a, sp))
+        self.a, self.sp = a, sp
+
+    def __floor__(self):
+        return int(self.sp.__rfloordiv__(self.a)) if self.a >= 0 else -int(Ratio(-self.a, self.sp).__ceil__())
+
+    def __ceil__(self):
+        if self.a < 0:
+            return -int(Ratio(-self.a, self.sp).__floor__())
+        nmin, nmax = int(self.a // self.sp.hi), int(self.a // self.sp.lo) + 2
+        for n in range(max(nmin - 1, 0), nmax + 1):
+            c = SymBool(z3.And(lift(n - 1) * self.sp.t < lift(self.a), lift(self.a) <= lift(n) * self.sp.t))
+            if bool(c):
+                return n
+        raise PathAbort()
+
+    def __int__(self):
+        return self.__floor__() if self.a >= 0 else self.__ceil__()
+
+    def __trunc__(self):
+        return self.__int__()
+
+
+def _divide_plain(a, sp):
+    return lift(a) / sp.t          # plain z3 division term: no defining constraint enters the path condition
 
 
 class SqSpacing(Sym):
@@ -110,6 +148,8 @@ class SqSpacing(Sym):
 
 
 def _int(x):
+    if isinstance(x, Ratio):
+        return x.__int__()
     return sym_int(x) if isinstance(x, Sym) else int(x)
 
 
@@ -274,6 +314,59 @@ def make_gen_replay(poly, rot, lattice=False):
             cs += lattice_checks(None, poly, s, pts)
         bad = [k for k, c in enumerate(cs) if not bool(c)]
         return bool(bad), dict(failed=bad, s=s, n=len(holes), polygon=poly, rotation=rot)
+    return replay
+
+
+# -- exact divisors: the spacing divides the lot sides exactly (the most common practical input) ----------------------------
+EXACT = [(60.0, 30.0, [5.0, 6.0, 7.5, 10.0, 15.0]), (50.0, 25.0, [5.0, 6.25, 12.5, 25.0]), (48.0, 36.0, [6.0, 12.0, 8.0])]
+
+
+def make_exact_fn(W, H, spacings):
+    poly = [(0.0, 0.0), (W, 0.0), (W, H), (0.0, H)]
+
+    def fn(e):
+        import ghedesigner.rowwise as RW
+        from ghedesigner.shape import Shapes
+        k = e.int('k', 0, len(spacings) - 1).__index__()       # forks over the listed divisors
+        sv = spacings[k]
+        s = Spacing(z3.Real('s'))
+        e.inputs['s'] = s.t
+        e.assume(s == sv)
+        arm(poly)
+        holes = RW.gen_borehole_config(Shapes(poly), s, s, rotate=0.0)
+        cs, pts = basic_checks(poly, s, holes)
+        cs += lattice_exact(poly, sv, pts)
+        return conj(cs)
+    return fn
+
+
+def lattice_exact(poly, sv, pts):
+    W = max(p[0] for p in poly) - min(p[0] for p in poly)
+    H = max(p[1] for p in poly) - min(p[1] for p in poly)
+    nx, ny = int(W // sv) + 1, int(H // sv) + 1
+    ok = len(pts) == nx * ny
+    if ok:
+        grid = sorted((i * W / (nx - 1), j * H / (ny - 1)) for i in range(nx) for j in range(ny))
+        ok = all(abs(a[0] - b[0]) < 1e-6 and abs(a[1] - b[1]) < 1e-6 for a, b in zip(sorted(pts), grid))
+    return [ok]
+
+
+def make_exact_replay(W, H, spacings):
+    poly = [(0.0, 0.0), (W, 0.0), (W, H), (0.0, H)]
+
+    def replay(model, notes):
+        restore_shadows()
+        import ghedesigner.rowwise as RW
+        from ghedesigner.shape import Shapes
+        sv = spacings[int(model['k'])]
+        try:
+            holes = RW.gen_borehole_config(Shapes(poly), sv, sv, rotate=0.0)
+        except Exception as ex:  # noqa: BLE001
+            return True, dict(exception='%s: %s' % (type(ex).__name__, ex), s=sv)
+        cs, pts = basic_checks(poly, sv, holes)
+        cs += lattice_exact(poly, sv, pts)
+        bad = [i for i, c in enumerate(cs) if not bool(c)]
+        return bool(bad), dict(failed=bad, s=sv, n=len(holes), lot=(W, H))
     return replay
 
 
@@ -486,6 +579,9 @@ def units(tier, seed):
     for nm, rot, shift in [('rect60x40', 0.0, (13.0, 7.5)), ('tri', 0.3, (4.25, 31.0))] + ([] if tier == 'quick' else [('hexagon', -0.6, (100.0, 3.0)), ('tri_axes', 0.0, (0.5, 0.5))]):
         us.append(Unit('shift_%s_rot%.2f' % (nm, rot), make_shift_fn(polys[nm], rot, shift), make_shift_replay(polys[nm], rot, shift), setup, F,
                        'polygon %s translated by %s; spacing all reals in [5,25] m' % (nm, shift), AS, max_seconds=1500))
+    for W, H, sp in EXACT:
+        us.append(Unit('lattice_exact_%gx%g' % (W, H), make_exact_fn(W, H, sp), make_exact_replay(W, H, sp), setup, F,
+                       'lot %g x %g m at the origin, rotation 0, spacing each of the exact divisors %s (forked)' % (W, H, sp), AS))
     sweeps = [(-90.0, 0.0, 15.0), (-30.0, 30.0, 7.5)] if tier == 'quick' else [(-90.0, 0.0, 15.0), (-30.0, 30.0, 7.5), (-90.0, 90.0, 15.0), (0.0, 10.0, 0.5), (-45.0, 45.0, 10.0)]
     for a, b, st in sweeps:
         for which in ('fr', 'wp'):
